@@ -7,13 +7,13 @@ from vf.gen import gen_data
 from vf.spec import S, build, short
 from vf.zoo import mw
 
-SHARDS = {"quick": 8, "thorough": 16}
+SHARDS = {"quick": 16, "thorough": 16}
 WATCHDOG = {"quick": 1800, "thorough": 10800}
-CASES = {"quick": 120, "thorough": 1500}
+CASES = {"quick": 250, "thorough": 1500}
 FLOORS = {
-    "quick": {"distinct_nontrivial": 200, "score_positions_checked": 15000, "runs_checked": 800,
-              "reversal_pairs": 250, "cases[bandwidth=1]": 30, "runs_below_min_detection_interval": 30,
-              "cases[n==2*bandwidth]": 10},
+    "quick": {"distinct_nontrivial": 1100, "score_positions_checked": 56000, "runs_checked": 3700,
+              "reversal_pairs": 1100, "cases[bandwidth=1]": 160, "runs_below_min_detection_interval": 220,
+              "cases[n==2*bandwidth]": 130},
     "thorough": {"distinct_nontrivial": 4000, "score_positions_checked": 500000},
 }
 ANCHORS = [
